@@ -278,7 +278,7 @@ func c14EndToEnd(r *hx.Run, rnd *rand.Rand, shapes []locSpec) {
 	var names2 []string
 	// dead[i]: the upstream of location i has no server that answers (nobody listens on its port)
 	dead := map[int]bool{}
-	deadAddr := "http://" + srvAddr(hx.FreePorts(1)[0])
+	deadAddr := "http://" + srvAddr(hx.DeadPort())
 	mk := func(locs []locSpec, names []string) *config.PikeConfig {
 		cfg := &config.PikeConfig{Caches: []config.CacheConfig{{Name: "c", Size: 1000, HitForPass: "5m"}}}
 		for i := 0; i < nOrig; i++ {
